@@ -35,8 +35,8 @@ type Item struct {
 	EndChunk bool        `json:"end_chunk,omitempty"` // a comparison point; B and C apply the chunk here
 	BatchB   bool        `json:"batch_b,omitempty"`   // B applies the chunk through ApplyBatch
 	BatchC   bool        `json:"batch_c,omitempty"`
-	Snap     bool        `json:"snap,omitempty"`     // after this chunk: B = Restore(Persist(Snapshot(B))) into a fresh FSM
-	Defer    int         `json:"defer,omitempty"`    // after this chunk: B.Snapshot() now, Persist it Defer chunks later, restore into a fresh FSM, catch up
+	Snap     bool        `json:"snap,omitempty"`  // after this chunk: B = Restore(Persist(Snapshot(B))) into a fresh FSM
+	Defer    int         `json:"defer,omitempty"` // after this chunk: B.Snapshot() now, Persist it Defer chunks later, restore into a fresh FSM, catch up
 }
 
 // Plan is a self-contained, replayable case.
